@@ -67,7 +67,7 @@ Section Top.
   (* ---------------------------------------------------------------- sync_jobs *)
   Lemma sync_jobs_existing : forall o deep fp sdir ddir dsp,
     sync_jobs_m frepr cf o deep fp (Some sdir) (Some ddir) dsp =
-    let '(d1, e1) := sync_ws frepr cf (S (depth (Dir sdir))) o deep sdir ddir [] in
+    let '(d1, e1) := sync_ws frepr cf (S (depth (Dir sdir))) (set_top o true) deep sdir ddir [] in
     match e1 with
     | Some _ => (Some d1, e1)
     | None => let '(d2, e2) := sync_doc cf o FN_DOC sdir d1 in (Some d2, e2)
@@ -79,10 +79,10 @@ Section Top.
   Lemma sync_jobs_files : forall o deep fp sdir ddir dsp d' e k,
     sync_jobs_m frepr cf o deep fp (Some sdir) (Some ddir) dsp = (Some d', e) ->
     k <> FN_DOC -> k <> backup_name FN_DOC ->
-    alookup k d' = alookup k (fst (sync_ws frepr cf (S (depth (Dir sdir))) o deep sdir ddir [])).
+    alookup k d' = alookup k (fst (sync_ws frepr cf (S (depth (Dir sdir))) (set_top o true) deep sdir ddir [])).
   Proof.
     intros o deep fp sdir ddir dsp d' e k H Hk Hb. rewrite sync_jobs_existing in H.
-    destruct (sync_ws frepr cf (S (depth (Dir sdir))) o deep sdir ddir []) as [d1 e1].
+    destruct (sync_ws frepr cf (S (depth (Dir sdir))) (set_top o true) deep sdir ddir []) as [d1 e1].
     destruct e1; [inversion H; reflexivity|].
     pose proof (sync_doc_frame cf o FN_DOC sdir d1 k Hk Hb) as F.
     destruct (sync_doc cf o FN_DOC sdir d1) as [d2 e2]. inversion H; subst. exact F.
@@ -98,8 +98,8 @@ Section Top.
     intros o deep fp src dst dsp Hdry H4 Hwf. unfold sync_jobs_m. rewrite Hdry, orb_true_r.
     destruct src as [sdir|]; [|reflexivity].
     destruct dst as [ddir|]; [|destruct (fix_dryinit cf); reflexivity].
-    pose proof (sync_ws_dry_id frepr cf (S (depth (Dir sdir))) o deep sdir ddir [] Hdry H4) as W.
-    destruct (sync_ws frepr cf (S (depth (Dir sdir))) o deep sdir ddir []) as [d1 e1]. simpl in W. subst d1.
+    pose proof (sync_ws_dry_id frepr cf (S (depth (Dir sdir))) (set_top o true) deep sdir ddir [] Hdry H4) as W.
+    destruct (sync_ws frepr cf (S (depth (Dir sdir))) (set_top o true) deep sdir ddir []) as [d1 e1]. simpl in W. subst d1.
     destruct e1; [reflexivity|].
     pose proof (sync_doc_dry_id cf o FN_DOC sdir ddir (proj1 (Hwf sdir eq_refl)) Hdry (proj2 (Hwf sdir eq_refl))) as D.
     destruct (sync_doc cf o FN_DOC sdir ddir) as [d2 e2]. simpl in D. subst d2. reflexivity.
@@ -129,21 +129,21 @@ Section Top.
     file_same frepr true c1 m1 c2 m2 = bytes_eqb (content_bytes frepr c1) (content_bytes frepr c2).
   Proof. reflexivity. Qed.
 
-  Lemma excluded_doc : forall o, o_docsync o <> DS_copy -> excluded cf o FN_DOC = true.
+  Lemma excluded_doc : forall o, o_docsync o <> DS_copy -> excluded cf (set_top o true) FN_DOC = true.
   Proof.
-    intros o H. unfold excluded, implicit_match.
-    destruct (o_docsync o); try congruence;
-      (destruct (fix_implicit cf); [replace (str_eqb FN_DOC FN_DOC) with true by (vm_compute; reflexivity)
-                                   |replace (re_match_lit FN_DOC FN_DOC) with true by (vm_compute; reflexivity)]);
-      rewrite !orb_true_r; reflexivity.
+    intros o H. unfold excluded, implicit_match, own_file. cbn [o_top set_top o_docsync o_exclude].
+    replace (str_eqb FN_DOC FN_DOC) with true by (vm_compute; reflexivity).
+    replace (re_match_lit FN_DOC FN_DOC) with true by (vm_compute; reflexivity).
+    destruct (o_docsync o); try congruence; destruct (fix_own cf); destruct (fix_implicit cf);
+      rewrite ?orb_true_r; reflexivity.
   Qed.
 
-  Lemma excluded_sp : forall o, excluded cf o FN_SP = true.
+  Lemma excluded_sp : forall o, excluded cf (set_top o true) FN_SP = true.
   Proof.
-    intros o. unfold excluded, implicit_match.
-    destruct (fix_implicit cf); [replace (str_eqb FN_SP FN_SP) with true by (vm_compute; reflexivity)
-                                |replace (re_match_lit FN_SP FN_SP) with true by (vm_compute; reflexivity)];
-      rewrite orb_true_r; reflexivity.
+    intros o. unfold excluded, implicit_match, own_file. cbn [o_top set_top o_docsync o_exclude].
+    replace (str_eqb FN_SP FN_SP) with true by (vm_compute; reflexivity).
+    replace (re_match_lit FN_SP FN_SP) with true by (vm_compute; reflexivity).
+    destruct (fix_own cf); destruct (fix_implicit cf); rewrite ?orb_true_r; reflexivity.
   Qed.
 
   (* C14: with DocSync.NO_SYNC the job document is not touched at all *)
@@ -154,9 +154,9 @@ Section Top.
     alookup FN_DOC d' = alookup FN_DOC ddir.
   Proof.
     intros o deep fp sdir ddir dsp d' e Hds Hnd H. rewrite sync_jobs_existing in H.
-    pose proof (sync_ws_untouched frepr cf (S (depth (Dir sdir))) o deep sdir ddir [] FN_DOC) as U.
-    destruct (sync_ws frepr cf (S (depth (Dir sdir))) o deep sdir ddir []) as [d1 e1]. simpl in U.
-    assert (Hex : excluded cf o FN_DOC = true) by (apply excluded_doc; congruence).
+    pose proof (sync_ws_untouched frepr cf (S (depth (Dir sdir))) (set_top o true) deep sdir ddir [] FN_DOC) as U.
+    destruct (sync_ws frepr cf (S (depth (Dir sdir))) (set_top o true) deep sdir ddir []) as [d1 e1]. simpl in U.
+    assert (Hex : excluded cf (set_top o true) FN_DOC = true) by (apply excluded_doc; congruence).
     rewrite <- U by (right; split; assumption).
     destruct e1; [inversion H; reflexivity|].
     rewrite (sync_doc_nosync cf o FN_DOC sdir d1 (or_introl Hds)) in H. inversion H. reflexivity.
